@@ -22,7 +22,7 @@ def main():
     props = {json.loads(l)["id"]: json.loads(l) for l in open(os.path.join(V, "properties.jsonl"))}
     results = []
     only = sys.argv[1:]
-    for d in sorted(glob.glob("/tmp/seed/C??/seed_out")):
+    for d in sorted(glob.glob("/tmp/seed2/C??/seed_out")):
         pid = d.split("/")[3]
         if only and pid not in only:
             continue
@@ -40,7 +40,7 @@ def main():
             rc1, out1 = sh(f"{PY} {demo}", cwd=WT, env=env)
             sh("git checkout -q -- . && git clean -fdq", cwd=WT)
             ok = rc0 == 0 and rca == 0 and passed and rc1 != 0
-            sid = f"{pid}-{mut}"
+            sid = f"{pid}-{mut}" + os.environ.get("SEED_SUFFIX", "")
             results.append((sid, ok, rc0, rca, passed, rc1))
             print(sid, "CONFIRMED" if ok else "REJECTED", dict(demo_clean=rc0, apply=rca, tests40=passed, demo_mut=rc1))
             if not ok:
